@@ -4,6 +4,8 @@
 //! (flag wakers, `set_current` before every poll), moves packets from `egress_all` to `deliver`
 //! and decides the fate of each of them. Nothing here draws random numbers or reads a clock.
 
+pub mod fixrun;
+pub mod rules;
 pub mod table;
 
 use serde::{Deserialize, Serialize};
